@@ -90,6 +90,47 @@ Third round (other source files, table UNITS; one generated file per unit):
 Conventions (DESIGN 3): Python ints are Z; a shift count that depends on a parameter gets CPython's `ValueError: negative shift
 count` guard, a count built from object state and literals only is taken as non-negative (class invariant 0 <= prefixlen <=
 width); method parameters are ints unless declared otherwise in WHITELIST; every parameter of a module-level function is declared in FUNCS.
+SRCA (netaddr/ip/sets.py -> coq/Gen/pysrc_sets*_gen.v, units SETS_UNITS; code in the block `SRCA` after class Translator, active for
+these units only):
+* An IPSet object is its only attribute `_cidrs`; that dict (IPNetwork keys, every value True) is the insertion-ordered list of its
+  keys: types `ipset` / `dict`, both `list net`; `x._cidrs` of an IPSet x is x; the state of a method is the leading parameter
+  `self_cidrs` (STATEVARS).  A parameter declared `ipset` is an already constructed IPSet (`hasattr(other, '_cidrs')` is true; a
+  `try: <reads of _cidrs only> / except AttributeError:` is its body).  Dict operations are the symbols py_dict_* of
+  Model/SrcPreludeSets.v (= Sets.dmem / dset / ddel / dfromkeys / dupdate / dict_eqb): `k in d`, `d[k] = True`, `del d[k]` (KeyError),
+  `d.update(e)`, `dict.fromkeys(l, True)`, `d == e`, `{}`, `bool(d)`, `_dict_keys(d)` / `for k in d` (the keys, insertion order; the
+  body may change d only directly before `return` / `break`).  sets_prepare() rewrites these statements to assignments
+  `d = __sets_dict_*(d, ..)` before translation (the names __sets_* are the translator's, not Python's).
+* `sorted(d)` = py_sorted_nets (Sets.sorted: IPNetwork ordering by sort_key(), stable); on IPNetwork objects `a == b` = net_key_eqb
+  (key()), `a < b` = py_net_ltb (sort_key()), `a in b` = the translated IPNetwork.__contains__ on the operand ONet a;
+  `x in <IPSet>` = the translated IPSet.__contains__; `not <IPSet>` = its __nonzero__; the truth value of an int is `!= 0`.
+* `l[i]` on a list = py_index (IndexError; negative i from the end), `l[k:]` = py_list_from k, `n[i]` on an IPNetwork = the
+  translated IPListMixin.__getitem__:int, `sum([<int> for x in xs])` = py_sum (map ..), `IPSet()` / `self.__class__()` = the
+  translated __init__ for iterable None on a new object (empty state), `IPRange(a, b)` on two IPAddress objects = py_iprange (the hand model of that constructor), `cidr_merge(l)` = py_cidr_merge,
+  `iprange_to_cidrs(a, b)` on two IPAddress objects = the translated function on py_net_of_addr a, b (its own IPNetwork(start)).
+* `x = IPNetwork(<name>)` is a private copy: `x._prefixlen -= 1` is a record update as long as x is only read as x.<attr> or as the
+  left operand of `in`.  `return <comparison> and <call>` evaluates the call only if the comparison holds.  `assert` is dropped.
+  `for a, b in e` unpacks a fresh loop variable.  `x.m(..)` as a statement on a local IPSet x, for a method m that assigns the
+  state, is `x = x.m(..)`.
+* Index-driven traversal needs nothing new: `l[i]` = py_index, `i += 1`, `while i < n` with the fuel of FUEL.  An out-parameter
+  (SETS_OUTPARAM: `ranges` of _subtract, a list the function appends to and the caller reads afterwards): the function returns
+  (that list, its value) and the call `x = f(.., l)` is `l, x = f(.., l)`.  A generator function (`yield`) whose callers consume it
+  at once in a `for` is the function that returns the list of what it yields (sets_yield).  Tuples of values are Coq tuples, an
+  IPAddress component is its pair (version, value); `[e for x in xs]` with a pure e = map.
+* Variants by argument type (`add:net`, `add:iprange`, `update:ipset/net/iprange/list`, `__init__:none/net/iprange/ipset/list`,
+  `remove:net/iprange`): `isinstance(<name>, C)` and `<parameter> is None` are decided by the declared type (`ipset` IPSet, `net`
+  IPNetwork, `iprange` IPRange = (version, start, end), `list net`, `none`; also for the loop variable of a `for` over a `list net`
+  parameter); a decided branch that ends with return / raise is not followed by the rest of the block.  A call `x.m(a)` /
+  `self.m(a)` of a method translated in variants picks the variant by the type of `a`; missing trailing arguments take their int
+  defaults.  `r[i]` on an `iprange` = the translated IPListMixin.__getitem__:int for IPRange.
+* _compact_single_network changes its parameter in place (SETS_MUTABLE_PARAMS): it is translated on a local copy; accepted only if
+  every read of the parameter is x.<attr>, `x in d`, `x == y`, or the key of `d[x] = True` / `del d[x]`, if `del d[x]` precedes the
+  attribute assignments in their block (the object is in no dict when it changes), and if every caller does not read its argument
+  after the call.  `x.prefixlen = e` goes through the translated setter _set_prefixlen, `x._value = e` is a record update;
+  `x.previous()` / `x.next()` = py_net_previous / py_net_next (hand models), `x.supernet()` = the translated method.
+  `X = None / for v in d: if c: X = ..; break / if X is not None: body` at the end of a function is
+  `for v in d: if c: X = ..; body; return` (inline_search_loop).  `{k: True}` = py_dict_set [] k, `d.popitem()[0]` in a return =
+  py_dict_popitem.  The auxiliary names h<N> inside and after loop N of a sets unit start at 1000 * N (a loop after an `if` with
+  exits is translated once per branch and both texts must agree).
 SRCB (text functions: netaddr/ip/glob.py -> pysrc_glob_gen.v; class FnB, a subclass of Fn used only for the units of SRCB_UNITS,
 so the text generated for every other unit is untouched; prelude Model/SrcPreludeGlob.v):
 * Values: `addr` = an IPAddress object (version, value); `rng` = an IPRange object (version, start, end); `char` = one character;
@@ -749,6 +790,70 @@ UNIT_POSTAMBLE = {"pysrc_nmap_gen.v": "\nEnd WithPlatform.\n", "pysrc_rfc1924_ge
 SRCB_VALUES = SRCB_VALUES + ("oaddr",)               # `oaddr` = what a generator of IPAddress objects yields: outcome (Z * Z)
 COQTY["oaddr"] = "(outcome (Z * Z))"
 SRCB_RESERVED |= set("pton6 ip_address py_ipaddress4_of_str py_ipnetwork_of_str py_iter_net py_gen_body py_gen_next yielded".split())
+
+# ---- SRCA: netaddr/ip/sets.py (IPSet; checks C07 and C06).  Tables of the sets units; the code is the block `SRCA` after class Translator.
+SETSFILE = "netaddr/ip/sets.py"
+SETS_REQ = " Model.PySlice Model.SrcPreludeSplitter Model.SrcPreludeSets"
+# three units over the same file, in dependency order: queries (C07), two-cursor sweeps (C07), mutators (C06).  A unit may call
+# the definitions of the units before it.  An IPSet parameter (`ipset`) is an already constructed IPSet object = its state.
+SETS_UNITS = [
+    (SETSFILE, "pysrc_sets_gen.v", "sets", SETS_REQ,
+     [("IPSet", "__init__:none", {"iterable": "none"})] +
+     [("IPSet", m, {}) for m in ("iter_cidrs", "__nonzero__", "size", "__len__", "iscontiguous", "iprange", "clear", "copy")] +
+     [("IPSet", "__contains__", {"ip": "net"})] +
+     [("IPSet", m, {"other": "ipset"}) for m in ("issubset", "issuperset", "__lt__", "__gt__", "__eq__", "__ne__")]),
+    (SETSFILE, "pysrc_sets_ops_gen.v", "sets", SETS_REQ,
+     [(None, "_subtract", {"supernet": "net", "subnets": "list net", "subnet_idx": "int", "ranges": "list rng"}),
+      (None, "_iter_merged_ranges", {"sorted_ranges": "list rng"})] +
+     [("IPSet", m, {"other": "ipset"}) for m in ("intersection", "isdisjoint", "difference", "symmetric_difference")] +
+     [("IPSet", "iter_ipranges", {})]),
+    (SETSFILE, "pysrc_sets_mut_gen.v", "sets", SETS_REQ,
+     [("IPSet", "compact", {}), ("IPSet", "pop", {}), ("IPSet", "update:ipset", {"iterable": "ipset"}), ("IPSet", "union", {"other": "ipset"})]),
+    # add / remove of an IPNetwork object; _compact_single_network changes its parameter (SETS_MUTABLE_PARAMS)
+    (SETSFILE, "pysrc_sets_add_gen.v", "sets", SETS_REQ,
+     [("IPSet", "_compact_single_network", {"added_network": "net"}), ("IPSet", "add:net", {"addr": "net"}),
+      ("IPSet", "remove:net", {"addr": "net"})]),
+    # the other argument forms that need no parsing: an IPRange object (`iprange` = (version, start value, end value)), a list of
+    # IPNetwork objects, None
+    (SETSFILE, "pysrc_sets_bulk_gen.v", "sets", SETS_REQ,
+     [("IPSet", "add:iprange", {"addr": "iprange"}), ("IPSet", "remove:iprange", {"addr": "iprange"}),
+      ("IPSet", "update:net", {"iterable": "net"}), ("IPSet", "update:iprange", {"iterable": "iprange"}),
+      ("IPSet", "update:list", {"iterable": "list net"})] +
+     [("IPSet", "__init__:" + t.split()[0], {"iterable": t}) for t in ("net", "iprange", "ipset", "list net")]),
+]
+# IPNetwork.__getstate__ (netaddr/ip/__init__.py) for IPSet.__getstate__: a unit of its own, before the sets units
+SETS_IP_UNIT = (IPFILE, "pysrc_sets_ip_gen.v", "", "", [("IPNetwork", "__getstate__", {})])
+SETS_UNITS.append(
+    (SETSFILE, "pysrc_sets_state_gen.v", "sets", SETS_REQ, [("IPSet", "__getstate__", {}), ("IPSet", "__setstate__", {"state": "list rng"})]))
+UNITS += [SETS_IP_UNIT] + SETS_UNITS
+FILES = FILES + (SETS_IP_UNIT[1],) + tuple(u[1] for u in SETS_UNITS)
+SETS_FILES = tuple(u[1] for u in SETS_UNITS)
+STATE["IPSet"] = ()
+STATEVARS["IPSet"] = (("_cidrs", "dict"),)          # the dict `_cidrs` (IPNetwork keys, values True) = the list of its keys
+COQTY.update({"dict": "(list net)", "ipset": "(list net)", "iprange": "(Z * Z * Z)", "none": "unit"})
+SETS_VALUE_TYPES = ("dict", "ipset", "iprange", "tuple")
+HASATTR[("ipset", "_cidrs")] = True
+for _u in SETS_FILES:
+    UNIT_NAMES[_u] = {"_sys_maxint": ("int", "ssize_max")}
+# fuel of the while loops of sets.py (the hand model's: Sets.contains_walk runs on Z.to_nat prefixlen + 1)
+# (written over parameters and the state only, so that renaming a local does not break the translation)
+FUEL[("IPSet", "__contains__", 1)] = ("ip._prefixlen", 1)
+FUEL[(None, "_subtract", 1)] = ("len(subnets)", 1)
+for _m in ("intersection", "difference", "symmetric_difference"):       # Sets.inter_loop / diff_loop / symdiff_loop: length a + length b + 1
+    FUEL[("IPSet", _m, 1)] = ("len(self_cidrs) + len(other._cidrs)", 1)
+FUEL[("IPSet", "difference", 2)] = ("len(self_cidrs)", 1)
+FUEL[("IPSet", "symmetric_difference", 2)] = ("len(self_cidrs)", 1)
+FUEL[("IPSet", "symmetric_difference", 3)] = ("len(other._cidrs)", 1)
+# a list parameter that the function appends to and the caller reads afterwards: function -> index of that parameter; the function
+# returns (that list, its value), the call `x = f(.., l)` is `l, x = f(.., l)`
+SETS_OUTPARAM = {"_subtract": 3}
+FUEL[("IPSet", "_compact_single_network", 4)] = ("added_network.prefixlen", 1)      # Sets.merge_up: Z.to_nat (nplen added) + 1
+# an IPNetwork parameter that the method changes in place (`x.prefixlen -= 1`, `x._value = e`): the method is translated with a
+# local copy; every caller must not read its argument after the call (checked at the call), and the object must be out of every
+# dict when it is changed (checked: `del d[x]` precedes the attribute assignments in their block)
+SETS_MUTABLE_PARAMS = {("IPSet", "_compact_single_network"): "added_network"}
+RESERVED |= set("py_dict_mem py_dict_set py_dict_del py_dict_fromkeys py_dict_update py_dict_eqb py_dict_popitem py_sorted_nets "
+                "py_net_ltb py_index py_list_from py_sum py_cidr_merge_nets py_iprange py_net_of_addr py_net_previous py_net_next py_map_o".split())
 
 
 class Untranslatable(Exception):
@@ -5361,6 +5466,862 @@ class Translator:
             except Untranslatable:
                 pass
         return self
+
+
+# ---- SRCA: netaddr/ip/sets.py (IPSet) ---------------------------------------------------------------------------------
+# Active only for the units of SETS_FILES; the text generated for every other unit is unchanged.  The hooks are installed
+# by wrapping methods of Fn / Module / Translator below (`SRCA hooks`), so that no existing method body is edited.
+# Readings (also in the module docstring, paragraph SRCA):
+# * An IPSet object is its only attribute `_cidrs`; `_cidrs` (a dict with IPNetwork keys, all values True) is the
+#   insertion-ordered list of its keys.  Types `ipset` (the object) and `dict` (its _cidrs), both `list net` in Coq; `x._cidrs`
+#   of an ipset x is x.  The state of a method is `self_cidrs` (STATEVARS).
+# * sets_prepare() rewrites a function of sets.py, before translation, into statements the translator knows:
+#     d[k] = True -> d = __sets_dict_set(d, k);  del d[k] -> d = __sets_dict_del(d, k);  d.update(e) -> d = __sets_dict_update(d, e)
+#     (d: self._cidrs, <name>._cidrs or a name);  for x in <..>._cidrs -> for x in __sets_dict_keys(<..>._cidrs) (the keys in
+#     insertion order; the body may change that dict only directly before `return` / `break`);  for a, b in e: body ->
+#     for sets_itemN in e: a, b = sets_itemN; body;  x.m(..) as a statement, for a local IPSet x and a method m that assigns the
+#     state -> x = x.m(..);  `assert` statements are dropped (they do not run under -O; the hand model has none).
+#   The names __sets_* are not Python names of the file; sets_rhs() turns them into the prelude symbols py_dict_*.
+BY_OUT = {}      # output file -> its Translator (filled by the wrapped Translator.__init__)
+
+
+def _sets_load(node):
+    import copy
+    n = copy.deepcopy(node)
+    for x in ast.walk(n):
+        if hasattr(x, "ctx"):
+            x.ctx = ast.Load()
+    return n
+
+
+def _sets_store(node):
+    n = _sets_load(node)
+    n.ctx = ast.Store()
+    return n
+
+
+def _is_cidrs(node):
+    return isinstance(node, ast.Attribute) and node.attr == "_cidrs" and isinstance(node.value, ast.Name)
+
+
+def _sets_pseudo(name, args, at):
+    return ast.copy_location(ast.Call(func=ast.copy_location(ast.Name(id=name, ctx=ast.Load()), at), args=args, keywords=[]), at)
+
+
+def _sets_mutates(st, d, fn):
+    """does statement st (not looking into nested blocks) change the dict written `d` (dotted path)?"""
+    if isinstance(st, (ast.Assign, ast.AugAssign)):
+        tgts = st.targets if isinstance(st, ast.Assign) else [st.target]
+        return any(dotted(t.value if isinstance(t, ast.Subscript) else t) == d for t in tgts)
+    if isinstance(st, ast.Delete):
+        return any(isinstance(t, ast.Subscript) and dotted(t.value) == d for t in st.targets)
+    if isinstance(st, ast.Expr) and isinstance(st.value, ast.Call) and isinstance(st.value.func, ast.Attribute):
+        f = st.value.func
+        if dotted(f.value) == d:
+            return True
+        if fn is not None and d == "self._cidrs" and dotted(f) == "self." + f.attr and fn.method_mutates(f.attr):
+            return True
+    return False
+
+
+def _sets_check_iteration(loop, d, fn):
+    """a `for` over the keys of dict d: d may be changed in the body only directly before `return` / `break`"""
+    def deep(st):
+        return _sets_mutates(st, d, fn) or any(_sets_mutates(n, d, fn) for n in ast.walk(st) if isinstance(n, ast.stmt))
+
+    def walk(stmts):
+        stmts = [st for st in stmts if not isinstance(st, ast.Assert)]
+        for i, st in enumerate(stmts):
+            if not deep(st):
+                continue
+            # after a change of d the block must leave the loop: it ends with return / break and has no continue after the change
+            if isinstance(stmts[-1], (ast.Return, ast.Break)) and not any(isinstance(n, ast.Continue) for x in stmts[i + 1:] for n in ast.walk(x)):
+                continue
+            if isinstance(st, ast.If):                  # .. or each branch of an `if` leaves by itself
+                walk(st.body)
+                walk(st.orelse)
+                continue
+            bad(st, "the dict %s is changed while a loop runs over its keys" % d)
+    walk(loop.body)
+
+
+class SetsPrepare(ast.NodeTransformer):
+    def __init__(self, fn):
+        self.fn, self.n = fn, 0
+
+    @staticmethod
+    def place(t):
+        return isinstance(t, ast.Name) or _is_cidrs(t)
+
+    @staticmethod
+    def inline_search_loop(f):
+        """X = None [; Y = None] / for v in D: if c: X = ..; Y = ..; break / if X is not None: body   (the last statements of f)
+        -> for v in D: if c: X = ..; Y = ..; body; return      (X, Y used nowhere else; loop variables of `body` renamed apart)"""
+        b = f.body
+        if len(b) < 3 or not (isinstance(b[-1], ast.If) and not b[-1].orelse and isinstance(b[-2], ast.For) and not b[-2].orelse):
+            return
+        t, loop = b[-1].test, b[-2]
+        if not (isinstance(t, ast.Compare) and len(t.ops) == 1 and isinstance(t.ops[0], ast.IsNot) and isinstance(t.left, ast.Name)
+                and isinstance(t.comparators[0], ast.Constant) and t.comparators[0].value is None):
+            return
+        k = len(b) - 2
+        names = []
+        while k > 0 and (isinstance(b[k - 1], ast.Assign) and len(b[k - 1].targets) == 1 and isinstance(b[k - 1].targets[0], ast.Name)
+                         and isinstance(b[k - 1].value, ast.Constant) and b[k - 1].value.value is None):
+            k -= 1
+            names.append(b[k].targets[0].id)
+        inner = loop.body[0] if len(loop.body) == 1 else None
+        if (t.left.id not in names or not (isinstance(inner, ast.If) and not inner.orelse and inner.body and isinstance(inner.body[-1], ast.Break))
+                or any(isinstance(n, (ast.Break, ast.Continue, ast.Return)) for st in inner.body[:-1] + b[-1].body for n in ast.walk(st))):
+            return
+        elsewhere = [n for st in b[:k] + [inner.test, loop.iter] for n in ast.walk(st) if isinstance(n, ast.Name) and n.id in names]
+        stores = [n for st in inner.body for n in ast.walk(st) if isinstance(n, ast.Name) and n.id in names and isinstance(n.ctx, ast.Store)]
+        if elsewhere or {n.id for n in stores} != set(names) or not isinstance(loop.target, ast.Name):
+            return
+        moved = b[-1].body
+        for st in moved:                            # loop variables of the moved statements that clash with the search loop's
+            for n in ast.walk(st):
+                if isinstance(n, ast.For) and isinstance(n.target, ast.Name) and n.target.id == loop.target.id:
+                    new = n.target.id + "_2"
+                    for m in ast.walk(n):
+                        if isinstance(m, ast.Name) and m.id == loop.target.id:
+                            m.id = new
+        inner.body = inner.body[:-1] + moved + [ast.copy_location(ast.Return(value=None), inner.body[-1])]
+        f.body = b[:k] + [loop]
+
+    def visit_FunctionDef(self, f):
+        self.inline_search_loop(f)
+        f = self.generic_visit(f)
+        for n in ast.walk(f):
+            for name in ("body", "orelse"):
+                if isinstance(getattr(n, name, None), list) and not getattr(n, name) and (name == "body"):
+                    setattr(n, name, [ast.copy_location(ast.Pass(), n)])
+        return f
+
+    def visit_Return(self, st):
+        st = self.generic_visit(st)
+        v = st.value            # return <dict>.popitem()[0]: the dict loses its last key, which is returned
+        if (isinstance(v, ast.Subscript) and const_int(v.slice) == 0 and isinstance(v.value, ast.Call) and isinstance(v.value.func, ast.Attribute)
+                and v.value.func.attr == "popitem" and not v.value.args and not v.value.keywords and dotted(v.value.func.value) == "self._cidrs"):
+            d = v.value.func.value
+            tgt = ast.Tuple(elts=[_sets_store(d), ast.Name(id="sets_popped", ctx=ast.Store())], ctx=ast.Store())
+            a = ast.copy_location(ast.Assign(targets=[tgt], value=_sets_pseudo("__sets_dict_popitem", [_sets_load(d)], st)), st)
+            return [a, ast.copy_location(ast.Return(value=ast.Name(id="sets_popped", ctx=ast.Load())), st)]
+        return st
+
+    def visit_Assign(self, st):
+        st = self.generic_visit(st)
+        t = st.targets[0] if len(st.targets) == 1 else None
+        v = st.value
+        if (isinstance(v, ast.Call) and isinstance(v.func, ast.Name) and v.func.id in SETS_OUTPARAM and isinstance(t, ast.Name)
+                and not v.keywords and len(v.args) > SETS_OUTPARAM[v.func.id] and isinstance(v.args[SETS_OUTPARAM[v.func.id]], ast.Name)):
+            out = v.args[SETS_OUTPARAM[v.func.id]].id          # x = f(.., l) for an out-parameter l: l, x = f(.., l)
+            st.targets = [ast.copy_location(ast.Tuple(elts=[ast.Name(id=out, ctx=ast.Store()), t], ctx=ast.Store()), t)]
+            return st
+        if isinstance(t, ast.Subscript):
+            if not (self.place(t.value) and isinstance(st.value, ast.Constant) and st.value.value is True
+                    and not isinstance(t.slice, ast.Slice)):
+                bad(st, "subscript assignment other than <dict>[k] = True")
+            return ast.copy_location(ast.Assign(targets=[_sets_store(t.value)],
+                                                value=_sets_pseudo("__sets_dict_set", [_sets_load(t.value), t.slice], st)), st)
+        return st
+
+    def visit_Delete(self, st):
+        out = []
+        for t in st.targets:
+            if not (isinstance(t, ast.Subscript) and self.place(t.value) and not isinstance(t.slice, ast.Slice)):
+                bad(st, "del other than del <dict>[k]")
+            out.append(ast.copy_location(ast.Assign(targets=[_sets_store(t.value)],
+                                                    value=_sets_pseudo("__sets_dict_del", [_sets_load(t.value), t.slice], st)), st))
+        return out
+
+    def visit_Assert(self, st):
+        return None
+
+    def visit_Compare(self, n):
+        n = self.generic_visit(n)
+        if (len(n.ops) == 1 and isinstance(n.ops[0], (ast.In, ast.NotIn)) and isinstance(n.comparators[0], ast.Name)
+                and n.comparators[0].id == "self" and self.fn is not None and self.fn.recv == "IPSet"):
+            at = n.comparators[0]       # x in self: the receiver, as the IPSet whose dict is self._cidrs
+            cid = ast.copy_location(ast.Attribute(value=ast.copy_location(ast.Name(id="self", ctx=ast.Load()), at), attr="_cidrs", ctx=ast.Load()), at)
+            n.comparators = [_sets_pseudo("__sets_self", [cid], at)]
+        return n
+
+    def visit_Call(self, n):
+        n = self.generic_visit(n)
+        if dotted(n.func) == "self.__class__" and not n.args and not n.keywords and self.fn is not None and self.fn.recv == "IPSet":
+            n.func = ast.copy_location(ast.Name(id="IPSet", ctx=ast.Load()), n.func)      # the receiver class is IPSet
+        return n
+
+    def visit_Expr(self, st):
+        v = st.value
+        if isinstance(v, ast.Call) and isinstance(v.func, ast.Attribute) and not v.keywords:
+            f = v.func
+            if f.attr == "update" and _is_cidrs(f.value) and len(v.args) == 1:
+                return ast.copy_location(ast.Assign(
+                    targets=[_sets_store(f.value)], value=_sets_pseudo("__sets_dict_update", [_sets_load(f.value), v.args[0]], st)), st)
+            if (isinstance(f.value, ast.Name) and f.value.id != "self" and self.fn is not None and self.fn.recv == "IPSet"
+                    and self.fn.mod.lookup("IPSet", f.attr) and self.fn.method_mutates(f.attr)):
+                v.state_call = True         # x.m(..) for a local IPSet x and a state-assigning m: x = x.m(..)
+                return ast.copy_location(ast.Assign(targets=[_sets_store(f.value)], value=v), st)
+        return self.generic_visit(st)
+
+    def visit_For(self, st):
+        if _is_cidrs(st.iter):
+            _sets_check_iteration(st, dotted(st.iter), self.fn)
+        st = self.generic_visit(st)
+        if _is_cidrs(st.iter):
+            st.iter = _sets_pseudo("__sets_dict_keys", [st.iter], st.iter)
+        if isinstance(st.target, ast.Tuple):
+            self.n += 1
+            name = "sets_item%d" % self.n
+            unpack = ast.copy_location(ast.Assign(targets=[st.target], value=ast.copy_location(ast.Name(id=name, ctx=ast.Load()), st.target)), st.target)
+            st.target = ast.copy_location(ast.Name(id=name, ctx=ast.Store()), st.target)
+            st.body = [unpack] + st.body
+        return st
+
+
+class SetsGenerator(ast.NodeTransformer):
+    """a generator function whose callers consume it at once (`for .. in g(..)`), read as the function that returns the list of
+    what it yields: sets_yield = [] first, `yield e` -> sets_yield.append(e), `return` / the end -> return sets_yield"""
+    def visit_Expr(self, st):
+        if isinstance(st.value, ast.Yield):
+            if st.value.value is None:
+                bad(st, "yield without a value")
+            call = ast.Call(func=ast.Attribute(value=ast.Name(id="sets_yield", ctx=ast.Load()), attr="append", ctx=ast.Load()),
+                            args=[st.value.value], keywords=[])
+            return ast.copy_location(ast.Expr(value=call), st)
+        return st
+
+    def visit_Return(self, st):
+        if st.value is not None:
+            bad(st, "return with a value in a generator")
+        return ast.copy_location(ast.Return(value=ast.Name(id="sets_yield", ctx=ast.Load())), st)
+
+    def visit_Yield(self, n):
+        bad(n, "yield used as an expression")
+
+    def visit_YieldFrom(self, n):
+        bad(n, "yield from")
+
+
+class SetsOutParam(ast.NodeTransformer):
+    def __init__(self, name):
+        self.name = name
+
+    def visit_Return(self, st):
+        if st.value is None:
+            bad(st, "return without a value in a function with an out-parameter")
+        st.value = ast.copy_location(ast.Tuple(elts=[ast.Name(id=self.name, ctx=ast.Load()), st.value], ctx=ast.Load()), st)
+        return st
+
+
+def sets_prepare(f, fn, mod=None):
+    import copy
+    f = copy.deepcopy(f)
+    if any(isinstance(n, (ast.Yield, ast.YieldFrom)) for n in ast.walk(f)):
+        if any(isinstance(n, (ast.FunctionDef, ast.Lambda)) and n is not f for n in ast.walk(f)):
+            bad(f, "generator with a nested function")
+        f = SetsGenerator().visit(f)
+        first = 1 if (f.body and isinstance(f.body[0], ast.Expr) and isinstance(f.body[0].value, ast.Constant)) else 0
+        init = ast.copy_location(ast.Assign(targets=[ast.Name(id="sets_yield", ctx=ast.Store())], value=ast.List(elts=[], ctx=ast.Load())), f.body[first])
+        last = ast.copy_location(ast.Return(value=ast.Name(id="sets_yield", ctx=ast.Load())), f.body[-1])
+        last.lineno = last.end_lineno = f.end_lineno
+        f.body = f.body[:first] + [init] + f.body[first:] + [last]
+    gens = {g.name for g in (mod.tree.body if mod is not None else []) if isinstance(g, ast.FunctionDef)
+            and any(isinstance(n, (ast.Yield, ast.YieldFrom)) for n in ast.walk(g))}
+    whole = {id(n.iter) for n in ast.walk(f) if isinstance(n, ast.For) and not n.orelse
+             and not any(isinstance(x, (ast.Break, ast.Return)) for st in n.body for x in ast.walk(st))}
+    for n in ast.walk(f):
+        if isinstance(n, ast.Call) and isinstance(n.func, ast.Name) and n.func.id in gens and id(n) not in whole:
+            bad(n, "the generator %s is not consumed at once by a `for` without break / return" % n.func.id)
+    if f.name in SETS_OUTPARAM and fn is None:
+        a = f.args.args[SETS_OUTPARAM[f.name]].arg
+        if not isinstance(f.body[-1], ast.Return):
+            bad(f, "function with an out-parameter that may fall off its end")
+        f = SetsOutParam(a).visit(f)
+    return ast.fix_missing_locations(SetsPrepare(fn).visit(f))
+
+
+def _sets_on(self):
+    return self.tr.out in SETS_FILES
+
+
+def sets_ipset_var(self, node, env):
+    return isinstance(node, ast.Name) and node.id in env and env[node.id][0] == "ipset"
+
+
+def sets_rhs(self, node, env):
+    """the expression forms of the sets units; None: not one of them (the general translation applies)"""
+    if isinstance(node, ast.Dict) and not node.keys:
+        return ("dict", "[]")
+    if isinstance(node, ast.Dict) and len(node.keys) == 1 and isinstance(node.values[0], ast.Constant) and node.values[0].value is True:
+        (tk, kt) = self.ex(node.keys[0], env)           # {k: True}
+        if tk != "net":
+            bad(node, "dict literal with a key of kind %s" % show(tk))
+        return ("dict", "(py_dict_set [] %s)" % kt)
+    if isinstance(node, ast.Attribute) and sets_ipset_var(self, node.value, env):
+        t = env[node.value.id][1]
+        if node.attr == "_cidrs":
+            return ("dict", t)
+        r = self.mod.lookup("IPSet", node.attr)
+        if r and r[2]:
+            return self.generated(node, "IPSet", node.attr, t, [])
+        bad(node, "attribute %s of an IPSet" % node.attr)
+    if isinstance(node, ast.Call):
+        return sets_call(self, node, env)
+    if isinstance(node, ast.ListComp) and len(node.generators) == 1:
+        g = node.generators[0]                              # [e for x in xs] with a pure e: map (fun x => e) xs
+        if g.ifs or g.is_async or not isinstance(g.target, ast.Name) or g.target.id in env:
+            bad(node, "list comprehension other than [e for x in xs] with a fresh x")
+        (tl, l) = self.ex(g.iter, env)
+        if tl == "dict":                                    # over a dict: its keys
+            tl = ("list", Cell("net"))
+        elem = tl[1].find().t if is_list(tl) else None
+        if elem is None:
+            bad(node, "comprehension over %s" % show(tl))
+        cn, lenv = self.bind_local(g.target, g.target.id, elem, env, g.iter)
+        self.nohoist += 1
+        (te, e) = self.ex(node.elt, lenv)
+        self.nohoist -= 1
+        if not is_value(te):
+            bad(node, "comprehension element of kind %s" % show(te))
+        return (("list", Cell(te)), "(map (fun %s => %s) %s)" % (cn, e, l))
+    if isinstance(node, ast.Tuple) and node.elts and isinstance(node.ctx, ast.Load):
+        items = [self.ex(x, env) for x in node.elts]        # a tuple of values; an IPAddress component is its pair (version, value)
+        if any(ty != "obj" and not is_value(ty) for ty, _ in items):
+            bad(node, "tuple component of kind %s" % [show(ty) for ty, _ in items if ty != "obj" and not is_value(ty)][0])
+        return (("tup", tuple(ty for ty, _ in items)), tuple_term([t[3] if ty == "obj" else t for ty, t in items]))
+    if isinstance(node, ast.Subscript):
+        snap, pre0 = self.snapshot(), list(self.pre)
+        ty, t = self.ex(node.value, env)
+        sl = node.slice
+        if is_list(ty) and isinstance(sl, ast.Slice):
+            k = const_int(sl.lower) if sl.lower is not None else None
+            if k is not None and k >= 0 and sl.upper is None and sl.step is None:
+                return (("list", ty[1]), "(py_list_from %d %s)" % (k, t))            # l[k:]
+        elif is_list(ty):
+            elem = ty[1].find().t
+            if elem is None:
+                bad(node, "index into a list whose element type is not known yet")
+            return ("out", elem, "(py_index %s %s)" % (t, self.int_(sl, env)))      # l[i]: IndexError outside
+        elif ty == "iprange" and not isinstance(sl, ast.Slice):
+            t0 = BY_OUT.get("pysrc_listlike_gen.v")                                  # IPRange.__getitem__ for an int index
+            if t0 is None:
+                bad(node, "IPRange.__getitem__ is not translated")
+            d = t0.get("IPRange", "__getitem__:int", node)
+            self.depfns.append(d)
+            a, b, c = self.fresh(), self.fresh(), self.fresh()
+            return ("out", d.kind, "(let '(%s, %s, %s) := %s in %s %s (width %s) %s %s %s)" % (a, b, c, t, d.cname, a, a, b, c, self.int_(sl, env)))
+        elif ty == "net" and not isinstance(sl, ast.Slice):
+            t0 = BY_OUT.get("pysrc_listlike_gen.v")                                  # IPNetwork.__getitem__ for an int index
+            if t0 is None:
+                bad(node, "IPNetwork.__getitem__ is not translated")
+            d = t0.get("IPNetwork", "__getitem__:int", node)
+            self.depfns.append(d)
+            return ("out", d.kind, "(%s (nver %s) (width (nver %s)) (nval %s) (nplen %s) %s)" % (d.cname, t, t, t, t, self.int_(sl, env)))
+        self.restore(snap)
+        self.pre = pre0
+        return None
+    if isinstance(node, ast.Compare) and len(node.ops) == 1:
+        op = node.ops[0]
+        snap, pre0 = self.snapshot(), list(self.pre)
+        if isinstance(op, (ast.In, ast.NotIn)):
+            (ta, a), (tb, b) = self.ex(node.left, env), self.ex(node.comparators[0], env)
+            if tb in ("dict", "ipset", "net"):
+                if ta != "net":
+                    bad(node, "membership test of %s" % show(ta))
+                if tb == "dict":
+                    r = ("bool", "(py_dict_mem %s %s)" % (b, a))                     # key lookup
+                elif tb == "ipset":
+                    r = self.generated(node, "IPSet", "__contains__", b, [("net", a)])
+                else:
+                    r = self.generated(node, "IPNetwork", "__contains__", "(nver %s) (width (nver %s)) (nval %s) (nplen %s)" % (b, b, b, b),
+                                       [("operand", "(ONet (nver %s) (nval %s) (nplen %s))" % (a, a, a))])
+                if r[0] == "out":
+                    h = self.fresh()
+                    self.hoist(node, ("bind", h, r[2]))
+                    r = ("bool", h)
+                return ("bool", "(negb %s)" % r[1]) if isinstance(op, ast.NotIn) else r
+        elif isinstance(op, (ast.Eq, ast.NotEq, ast.Lt)):
+            (ta, a), (tb, b) = self.ex(node.left, env), self.ex(node.comparators[0], env)
+            t = None
+            if ta == "net" and tb == "net":         # BaseIP.__eq__ compares key(), BaseIP.__lt__ compares sort_key()
+                t = "(py_net_ltb %s %s)" % (a, b) if isinstance(op, ast.Lt) else "(net_key_eqb %s %s)" % (a, b)
+            elif ta == "dict" and tb == "dict" and not isinstance(op, ast.Lt):
+                t = "(py_dict_eqb %s %s)" % (a, b)
+            if t is not None:
+                return ("bool", "(negb %s)" % t if isinstance(op, ast.NotEq) else t)
+        self.restore(snap)
+        self.pre = pre0
+    return None
+
+
+def sets_call(self, node, env):
+    f = node.func
+    name = f.id if isinstance(f, ast.Name) and f.id not in env else None
+    plain = not node.keywords
+    if name in ("__sets_dict_set", "__sets_dict_del", "__sets_dict_update", "__sets_dict_keys"):
+        (td, d) = self.ex(node.args[0], env)
+        if td != "dict":
+            bad(node, "dict operation on %s" % show(td))
+        if name == "__sets_dict_keys":
+            return (("list", Cell("net")), d)
+        (tk, kt) = self.ex(node.args[1], env)
+        if tk != ("dict" if name == "__sets_dict_update" else "net"):
+            bad(node, "dict operation with %s" % show(tk))
+        if name == "__sets_dict_del":
+            return ("out", "dict", "(py_dict_del %s %s)" % (d, kt))
+        return ("dict", "(%s %s %s)" % ("py_dict_set" if name == "__sets_dict_set" else "py_dict_update", d, kt))
+    if name == "__sets_dict_popitem":
+        (td, d) = self.ex(node.args[0], env)
+        if td != "dict":
+            bad(node, "popitem() of %s" % show(td))
+        return ("out", ("tup", ("dict", "net")), "(py_dict_popitem %s)" % d)
+    if name == "__sets_self":
+        (td, d) = self.ex(node.args[0], env)
+        return ("ipset", d)
+    if name == "_dict_keys" and plain and len(node.args) == 1 and self.mod.imports.get(name) == "netaddr.compat._dict_keys":
+        (td, d) = self.ex(node.args[0], env)            # compat: lambda x: list(x.keys()) (Python 3) / x.keys() (Python 2)
+        if td != "dict":
+            bad(node, "_dict_keys of %s" % show(td))
+        return (("list", Cell("net")), d)
+    if name == "sorted" and plain and len(node.args) == 1 and not self.mod.toplevel("sorted"):
+        snap, pre0 = self.snapshot(), list(self.pre)
+        (td, d) = self.ex(node.args[0], env)
+        if td == "dict":
+            return (("list", Cell("net")), "(py_sorted_nets %s)" % d)   # IPNetwork ordering: BaseIP.__lt__ on sort_key()
+        self.restore(snap)
+        self.pre = pre0
+        return None
+    if name == "len" and plain and len(node.args) == 1 and not self.mod.toplevel("len"):
+        snap, pre0 = self.snapshot(), list(self.pre)
+        (td, d) = self.ex(node.args[0], env)
+        if td == "dict":
+            return ("int", "(Z.of_nat (List.length %s))" % d)           # the number of keys
+        self.restore(snap)
+        self.pre = pre0
+        return None
+    if name == "bool" and plain and len(node.args) == 1 and not self.mod.toplevel("bool"):
+        snap, pre0 = self.snapshot(), list(self.pre)
+        (td, d) = self.ex(node.args[0], env)
+        if td == "dict":
+            return ("bool", "(py_nonempty %s)" % d)
+        self.restore(snap)
+        self.pre = pre0
+        return None
+    if name == "sum" and plain and len(node.args) == 1 and not self.mod.toplevel("sum") and isinstance(node.args[0], ast.ListComp):
+        lc = node.args[0]                               # sum([<int> for x in xs])
+        g = lc.generators
+        if not (len(g) == 1 and not g[0].ifs and not g[0].is_async and isinstance(g[0].target, ast.Name) and g[0].target.id not in env):
+            bad(node, "sum() of something other than [<int> for x in xs]")
+        it = g[0].iter
+        (tl, l) = self.ex(_sets_pseudo("__sets_dict_keys", [it], it) if (_is_cidrs(it) or (isinstance(it, ast.Name) and env.get(it.id, ("",))[0] == "dict")) else it, env)
+        elem = tl[1].find().t if is_list(tl) else None
+        if elem is None:
+            bad(node, "sum() over %s" % show(tl))
+        cn, lenv = self.bind_local(g[0].target, g[0].target.id, elem, env, it)
+        self.nohoist += 1
+        e = self.int_(lc.elt, lenv)
+        self.nohoist -= 1
+        return ("int", "(py_sum (map (fun %s => %s) %s))" % (cn, e, l))
+    if dotted(f) == "dict.fromkeys" and "dict" not in env and not self.mod.toplevel("dict") and plain and len(node.args) == 2:
+        if not (isinstance(node.args[1], ast.Constant) and node.args[1].value is True):
+            bad(node, "dict.fromkeys(l, v) with v other than True")
+        src = node.args[0]
+        if (isinstance(src, ast.GeneratorExp) and len(src.generators) == 1 and not src.generators[0].ifs and isinstance(src.elt, ast.Name)
+                and isinstance(src.generators[0].target, ast.Name) and src.elt.id == src.generators[0].target.id and src.elt.id not in env):
+            src = src.generators[0].iter                # (x for x in l), consumed at once: l
+        if isinstance(src, ast.GeneratorExp):
+            # (e for x in l) / (e for a, b, c in l), consumed at once, where e may raise: py_map_o (the first exception wins)
+            g = src.generators
+            names = [g[0].target] if isinstance(g[0].target, ast.Name) else list(getattr(g[0].target, "elts", []))
+            if not (len(g) == 1 and not g[0].ifs and not g[0].is_async and names and all(isinstance(x, ast.Name) and x.id not in env for x in names)):
+                bad(node, "generator expression other than (e for x in l) / (e for a, b in l) with fresh names")
+            (tl, l) = self.ex(g[0].iter, env)
+            elem = tl[1].find().t if is_list(tl) else None
+            etys = [elem] if isinstance(g[0].target, ast.Name) else (list(elem[1]) if isinstance(elem, tuple) and elem[0] == "tup" else None)
+            if elem is None or etys is None or len(etys) != len(names) or any(not is_value(t) for t in etys):
+                bad(node, "generator expression over %s" % show(tl))
+            lenv, cns = env, []
+            for x, xty in zip(names, etys):
+                cn, lenv = self.bind_local(x, x.id, xty, lenv, g[0].iter)
+                cns.append(cn)
+            saved, self.pre = self.pre, []
+            r = self.rhs(src.elt, lenv)
+            inner, self.pre = self.pre, saved
+            if inner or r[0] != "out" or r[1] != "net":
+                bad(node, "generator expression whose element is not one call that makes an IPNetwork")
+            pat = cns[0] if isinstance(g[0].target, ast.Name) else "'(%s)" % ", ".join(cns)
+            h = self.fresh()
+            self.hoist(node, ("bind", h, "(py_map_o (fun %s => %s) %s)" % (pat, r[2], l)))
+            return ("dict", "(py_dict_fromkeys %s)" % h)
+        (tl, l) = self.ex(src, env)
+        if not is_list(tl):
+            bad(node, "dict.fromkeys of %s" % show(tl))
+        unify(node, tl, ("list", Cell("net")), "dict.fromkeys")
+        return ("dict", "(py_dict_fromkeys %s)" % l)
+    if plain and not node.args and ((name == "IPSet" and "IPSet" in self.mod.classes) or (dotted(f) == "self.__class__" and self.recv == "IPSet")):
+        # IPSet(): a new object (no state yet: the empty list) initialised by the translated __init__ for iterable None, flags 0
+        node.state_call = True                          # the state it assigns is that of the new object
+        return sets_method_call(self, node, "__init__", "(@nil net)", [("none", "tt")])
+    if name == "cidr_merge" and plain and len(node.args) == 1 and self.mod.imports.get(name) == "netaddr.ip.cidr_merge":
+        (tl, l) = self.ex(node.args[0], env)            # not translated: the hand model (SrcPreludeSplitter.py_cidr_merge); a dict = its keys
+        if tl != "dict":
+            if not is_list(tl):
+                bad(node, "cidr_merge of %s" % show(tl))
+            unify(node, tl, ("list", Cell("net")), "cidr_merge")
+        return ("out", ("list", Cell("net")), "(py_cidr_merge %s)" % l)
+    if name == "iprange_to_cidrs" and plain and len(node.args) == 2 and self.mod.imports.get(name) == "netaddr.ip.iprange_to_cidrs":
+        args = [self.ex(x, env) for x in node.args]
+        if all(ty == "obj" for ty, _ in args):          # IPAddress arguments: the callee's IPNetwork(start) makes them /width networks
+            return self.generated(node, None, name, "", [("net", "(py_net_of_addr %s)" % t[3]) for _, t in args])
+        return self.generated(node, None, name, "", args)
+    if name == "IPRange" and plain and len(node.args) == 2 and self.mod.imports.get(name) == "netaddr.ip.IPRange":
+        args = [self.ex(x, env) for x in node.args]     # not translated: the hand model of IPRange.__init__ on two IPAddress objects
+        if any(ty != "obj" for ty, _ in args):
+            bad(node, "IPRange() of something other than two IPAddress objects")
+        return ("out", ("tup", ("int", "int", "int")), "(py_iprange %s %s)" % (args[0][1][3], args[1][1][3]))
+    if isinstance(f, ast.Attribute) and isinstance(f.value, ast.Name) and env.get(f.value.id, ("",))[0] == "net" and plain:
+        x, m = env[f.value.id][1], f.attr               # x.m(..) for an IPNetwork x
+        r = self.tr.modof("IPNetwork").lookup("IPNetwork", m)
+        if not r or r[2]:
+            bad(node, "call of %s.%s" % (f.value.id, m))
+        if m in ("previous", "next") and not node.args:
+            if [a.arg for a in r[1].args.args] != ["self", "step"] or [const_int(d) for d in r[1].args.defaults] != [1]:
+                bad(node, "IPNetwork.%s is not %s(self, step=1)" % (m, m))
+            return ("out", "net", "(py_net_%s %s)" % (m, x))       # not translated: the hand model (Sets.net_previous / net_next)
+        d = self.tr.get("IPNetwork", m, node)
+        args = [self.ex(a, env) for a in node.args]
+        dflt, params = d.f.args.defaults, d.f.args.args[1:]
+        for i in range(len(args), len(d.params)):
+            j = i - (len(params) - len(dflt))
+            if j < 0 or const_int(dflt[j]) is None:
+                bad(node, "call of IPNetwork.%s without argument %s" % (m, params[i].arg))
+            args = args + [("int", "%d" % const_int(dflt[j]))]
+        return self.generated(node, "IPNetwork", m, "(nver %s) (width (nver %s)) (nval %s) (nplen %s)" % (x, x, x, x), args)
+    if isinstance(f, ast.Attribute) and sets_ipset_var(self, f.value, env):
+        r = self.mod.lookup("IPSet", f.attr)            # x.m(..) for an IPSet x other than self
+        if not r or r[2] or node.keywords:
+            bad(node, "call of %s.%s" % (f.value.id, f.attr))
+        return sets_method_call(self, node, f.attr, env[f.value.id][1], [self.ex(x, env) for x in node.args])
+    if (self.recv == "IPSet" and isinstance(f, ast.Attribute) and dotted(f) == "self." + f.attr and f.attr != "__class__" and plain
+            and not sets_listed("IPSet", f.attr) and sets_variants(f.attr)):
+        k = len(STATEVARS["IPSet"])                     # self.m(..) for a method translated in variants (by the type of its argument)
+        return sets_method_call(self, node, f.attr, " ".join(self.ex(x, env)[1] for x in node.args[:k]), [self.ex(x, env) for x in node.args[k:]], "dict")
+    return None
+
+
+def sets_listed(recv, name):
+    return any(w[:2] == (recv, name) for u in SETS_UNITS for w in u[4])
+
+
+def sets_variants(name):
+    return [w[1] for u in SETS_UNITS for w in u[4] if w[0] == "IPSet" and w[1].partition(":")[0] == name and ":" in w[1]]
+
+
+def sets_method_call(self, node, name, state, args, newstate="ipset"):
+    """call of IPSet method `name` on the IPSet `state`: the variant `name:<type of the first argument>` if the method is
+    translated in variants; missing trailing arguments take the (int constant) defaults of the definition"""
+    if not sets_listed("IPSet", name):
+        ty = args[0][0] if args else "none"
+        v = "%s:%s" % (name, ty if isinstance(ty, str) else ty[0])
+        if v not in sets_variants(name):
+            bad(node, "call of IPSet.%s with %s: no such variant is translated" % (name, show(ty)))
+        name = v
+    d = self.tr.get("IPSet", name, node)
+    dflt = d.f.args.defaults
+    params = d.f.args.args[len(d.f.args.args) - len(d.params):]
+    for i in range(len(args), len(d.params)):
+        j = i - (len(params) - len(dflt))
+        if j < 0 or const_int(dflt[j]) is None:
+            bad(node, "call of IPSet.%s without argument %s, which has no int default" % (name, params[i].arg))
+        args = args + [("int", "%d" % const_int(dflt[j]))]
+    r = self.generated(node, "IPSet", name, state, args)
+    if d.mutating and not d.valued:
+        return (r[0], newstate, r[2]) if r[0] == "out" else (newstate, r[1])    # the new state of that IPSet
+    return r
+
+
+def sets_stmt(self, stmts, env, k, after):
+    """the statement forms of the sets units; None: not one of them"""
+    s, rest = stmts[0], list(stmts[1:])
+    go = lambda e: self.block(rest, e, k, after)
+    if isinstance(s, ast.Assign) and len(s.targets) == 1 and _is_cidrs(s.targets[0]) and sets_ipset_var(self, s.targets[0].value, env):
+        x = s.targets[0].value.id                       # x._cidrs = e for a local IPSet x: x is now the IPSet with that dict
+        r = self.rhs(s.value, env)
+        pre = self.take_pre()
+        if (r[1] if r[0] == "out" else r[0]) != "dict":
+            bad(s, "assignment of %s to _cidrs" % show(r[1] if r[0] == "out" else r[0]))
+        cn, env = self.bind_local(s, x, "ipset", env, s.value)
+        return self.wrap(pre, ("bind", cn, r[2], go(env)) if r[0] == "out" else (go(env) if r[1] == cn else ("let", cn, r[1], go(env))))
+    if isinstance(s, ast.Assign) and len(s.targets) == 1 and isinstance(s.targets[0], ast.Tuple) and all(isinstance(x, ast.Name) for x in s.targets[0].elts):
+        snap, pre0 = self.snapshot(), list(self.pre)
+        r = self.rhs(s.value, env)
+        ty = r[1] if r[0] == "out" else r[0]
+        if isinstance(ty, tuple) and ty[0] == "tup" and len(ty[1]) == len(s.targets[0].elts) and "obj" in ty[1]:
+            pre, names = self.take_pre(), []            # a, b = e where a component is an IPAddress object (a pair)
+            for x, xty in zip(s.targets[0].elts, ty[1]):
+                cn, env = self.bind_local(x, x.id, xty, env, s.value)
+                if xty == "obj":
+                    env[x.id] = ("obj", self.objvar(cn))
+                names.append(cn)
+            return self.wrap(pre, ("bind" if r[0] == "out" else "let", pattern(names), r[2] if r[0] == "out" else r[1], go(env)))
+        self.restore(snap)
+        self.pre = pre0
+    if (isinstance(s, (ast.Assign, ast.AugAssign)) and isinstance((s.targets[0] if isinstance(s, ast.Assign) else s.target), ast.Attribute)):
+        tgt = s.targets[0] if isinstance(s, ast.Assign) else s.target
+        if (tgt.attr == "prefixlen" and isinstance(tgt.value, ast.Name) and env.get(tgt.value.id, ("",))[0] == "net"
+                and (isinstance(s, ast.AugAssign) or len(s.targets) == 1)):
+            # x.prefixlen = e on an owned IPNetwork object: through the property's setter _set_prefixlen (range check), then a record update
+            c = self.tr.modof("IPNetwork").classes["IPNetwork"]
+            props = [st for st in c.body if isinstance(st, ast.Assign) and len(st.targets) == 1 and dotted(st.targets[0]) == "prefixlen"]
+            if not (len(props) == 1 and isinstance(props[0].value, ast.Call) and dotted(props[0].value.func) == "property"
+                    and len(props[0].value.args) >= 2 and dotted(props[0].value.args[1]) == "_set_prefixlen"):
+                bad(s, "IPNetwork.prefixlen is not property(.., _set_prefixlen, ..)")
+            x, old = tgt.value.id, env[tgt.value.id][1]
+            if not self.owned(x):
+                bad(s, "attribute assignment on %s, which may be visible under another name" % x)
+            value = s.value if isinstance(s, ast.Assign) else ast.copy_location(ast.BinOp(_sets_load(tgt), s.op, s.value), s)
+            e = self.int_(ast.fix_missing_locations(value), env)
+            pre = self.take_pre()
+            d = self.tr.get("IPNetwork", "_set_prefixlen", s)
+            self.depfns.append(d)
+            h = self.fresh()
+            cn, env = self.bind_local(s, x, "net", env, value)
+            return self.wrap(pre, ("bind", h, "(%s (nver %s) (width (nver %s)) (nval %s) (nplen %s) (SInt %s))" % (d.cname, old, old, old, old, e),
+                                   ("let", cn, "{| nver := nver %s; nval := nval %s; nplen := %s |}" % (old, old, h), go(env))))
+    if isinstance(s, ast.Assign) and isinstance(s.value, ast.Call) and getattr(s.value, "state_call", False) and isinstance(s.value.func, ast.Attribute):
+        key = (self.recv, s.value.func.attr)
+        if key in SETS_MUTABLE_PARAMS and dotted(s.value.func) == "self." + s.value.func.attr:
+            r = self.mod.lookup(*key)
+            i = [a.arg for a in r[1].args.args].index(SETS_MUTABLE_PARAMS[key]) - 1 + len(STATEVARS[self.recv])
+            a = s.value.args[i] if i < len(s.value.args) else None
+            if not isinstance(a, ast.Name) or any(isinstance(n, ast.Name) and n.id == a.id and isinstance(n.ctx, ast.Load)
+                                                  for st in rest + after for n in ast.walk(st)):
+                bad(s, "the argument of %s, which changes it in place, is read after the call" % key[1])
+    if isinstance(s, ast.If):
+        t, neg = s.test, False
+        if isinstance(t, ast.UnaryOp) and isinstance(t.op, ast.Not):
+            t, neg = t.operand, True
+        tyname = lambda ty: ty if isinstance(ty, str) else ty[0]
+        if (isinstance(t, ast.Compare) and len(t.ops) == 1 and isinstance(t.ops[0], (ast.Is, ast.IsNot)) and isinstance(t.left, ast.Name)
+                and isinstance(t.comparators[0], ast.Constant) and t.comparators[0].value is None and t.left.id in self.ptypes_declared
+                and t.left.id in env and tyname(env[t.left.id][0]) in SETS_CLASS_OF):
+            # <parameter> is None / is not None: decided by the declared type of the parameter
+            yes = ((tyname(env[t.left.id][0]) == "none") == isinstance(t.ops[0], ast.Is)) != neg
+            return self.block(sets_then(s.body if yes else s.orelse, rest), env, k, after)
+        if (isinstance(t, ast.Call) and dotted(t.func) == "isinstance" and len(t.args) == 2 and not t.keywords and isinstance(t.args[0], ast.Name)
+                and t.args[0].id in env and tyname(env[t.args[0].id][0]) in SETS_CLASS_OF):
+            # isinstance(<parameter>, C) / (C1, C2): decided by the declared type of the parameter
+            cs = t.args[1].elts if isinstance(t.args[1], ast.Tuple) else [t.args[1]]
+            if any(not isinstance(c, ast.Name) or c.id in env or not (c.id in self.mod.classes or (self.mod.imports.get(c.id) or "").startswith("netaddr.")) for c in cs):
+                bad(s, "isinstance against something other than classes of netaddr")
+            if any(c.id == "_int_type" for c in cs) and self.mod.imports.get("_int_type") != "netaddr.compat._int_type":
+                bad(s, "_int_type is not netaddr.compat._int_type")
+            if any(c.id not in SETS_LEAF_CLASSES for c in cs):
+                bad(s, "isinstance against %s: not decided by the declared type" % [c.id for c in cs if c.id not in SETS_LEAF_CLASSES][0])
+            yes = (SETS_CLASS_OF[tyname(env[t.args[0].id][0])] in [c.id for c in cs]) != neg
+            return self.block(sets_then(s.body if yes else s.orelse, rest), env, k, after)
+    if (isinstance(s, ast.Try) and len(s.handlers) == 1 and dotted(s.handlers[0].type) == "AttributeError" and not s.orelse and not s.finalbody
+            and "AttributeError" not in env and not self.mod.toplevel("AttributeError")
+            and all((_is_cidrs(n) and sets_ipset_var(self, n.value, env)) for st in s.body for n in ast.walk(st) if isinstance(n, ast.Attribute))
+            and not any(isinstance(n, (ast.Call, ast.Subscript, ast.BinOp)) for st in s.body for n in ast.walk(st))):
+        # try: .. / except AttributeError: ..  around a body whose only attribute reads are `_cidrs` of IPSet objects, without calls:
+        # the handler is dead code (the parameter is declared an IPSet)
+        return self.block(s.body + rest, env, k, after)
+    if (isinstance(s, ast.Return) and isinstance(s.value, ast.BoolOp) and isinstance(s.value.op, ast.And) and len(s.value.values) == 2
+            and isinstance(s.value.values[0], ast.Compare) and isinstance(s.value.values[1], ast.Call)):
+        # return <comparison> and <call that can raise>: the call is evaluated only if the comparison holds
+        a, b = s.value.values
+        new = ast.copy_location(ast.If(test=a, body=[ast.copy_location(ast.Return(value=b), s)],
+                                       orelse=[ast.copy_location(ast.Return(value=ast.copy_location(ast.Constant(value=False), s)), s)]), s)
+        return self.block([ast.fix_missing_locations(new)] + rest, env, k, after)
+    return None
+
+
+def sets_then(chosen, rest):
+    """the statements that run when a decided `if` takes the branch `chosen`: the rest of the block follows unless the branch
+    ends with return / raise"""
+    return list(chosen) if chosen and isinstance(chosen[-1], (ast.Return, ast.Raise)) else list(chosen) + rest
+
+
+def sets_owned(self, x):
+    """a local that holds a private copy: every binding is `x = IPNetwork(<name>)` (the copy constructor) and every read is
+    x.<attribute> or the left operand of `x in <dict>`: then `x._prefixlen = e` is a plain update of x"""
+    bases = {id(n.value) for n in ast.walk(self.f) if isinstance(n, ast.Attribute)}
+    bases |= {id(n.left) for n in ast.walk(self.f) if isinstance(n, ast.Compare) and len(n.ops) == 1 and isinstance(n.ops[0], (ast.In, ast.NotIn))}
+    bases |= {id(o) for n in ast.walk(self.f) if isinstance(n, ast.Compare) and len(n.ops) == 1 and isinstance(n.ops[0], (ast.Eq, ast.NotEq))
+              for o in [n.left] + n.comparators}        # x == y reads key() only
+    binds = [st for st in ast.walk(self.f) if isinstance(st, (ast.Assign, ast.AugAssign, ast.For, ast.With, ast.NamedExpr))
+             and any(isinstance(n, ast.Name) and n.id == x and isinstance(n.ctx, ast.Store) and id(n) not in bases for n in ast.walk(st))]
+    copyctor = lambda st: (isinstance(st, ast.Assign) and len(st.targets) == 1 and isinstance(st.targets[0], ast.Name) and isinstance(st.value, ast.Call)
+                           and dotted(st.value.func) == "IPNetwork" and len(st.value.args) == 1 and not st.value.keywords
+                           and isinstance(st.value.args[0], ast.Name) and self.mod.imports.get("IPNetwork") == "netaddr.ip.IPNetwork")
+    for n in ast.walk(self.f):                       # x as the key of d[x] = True / del d[x] (rewritten by sets_prepare)
+        if isinstance(n, ast.Call) and isinstance(n.func, ast.Name) and n.func.id in ("__sets_dict_set", "__sets_dict_del") and len(n.args) == 2:
+            bases.add(id(n.args[1]))
+    reads_ok = all(id(n) in bases for n in ast.walk(self.f) if isinstance(n, ast.Name) and n.id == x and isinstance(n.ctx, ast.Load))
+    if SETS_MUTABLE_PARAMS.get((self.recv, self.pyname)) == x and x in [a.arg for a in self.f.args.args] and not binds and reads_ok:
+        def keyop(st, name):
+            return (isinstance(st, ast.Assign) and isinstance(st.value, ast.Call) and isinstance(st.value.func, ast.Name)
+                    and st.value.func.id == name and len(st.value.args) == 2 and isinstance(st.value.args[1], ast.Name) and st.value.args[1].id == x)
+        for blk in [getattr(n, nm) for n in ast.walk(self.f) for nm in ("body", "orelse") if isinstance(getattr(n, nm, None), list)]:
+            out = False                                 # is x known to be out of the dict at this point of the block?
+            for st in blk:
+                if keyop(st, "__sets_dict_del"):
+                    out = True
+                elif keyop(st, "__sets_dict_set"):
+                    out = False
+                elif (isinstance(st, (ast.Assign, ast.AugAssign)) and any(
+                        isinstance(t, ast.Attribute) and isinstance(t.value, ast.Name) and t.value.id == x
+                        for t in (st.targets if isinstance(st, ast.Assign) else [st.target])) and not out):
+                    return False
+        return True
+    return (bool(binds) and all(copyctor(st) for st in binds) and x not in [a.arg for a in self.f.args.args] and reads_ok)
+
+
+# ---- SRCA hooks
+_is_value0 = is_value
+_parse_type0 = parse_type
+# the class a declared parameter type stands for (IPGlob, the subclass of IPRange, is not told apart: `rng` is not used for
+# isinstance tests against IPGlob)
+SETS_CLASS_OF = {"ipset": "IPSet", "net": "IPNetwork", "iprange": "IPRange", "none": None, "list": None}
+# the classes an isinstance test may name: none of them is a base class of another one of them, and no declared type stands for
+# an int (a test against a base class such as BaseIP, or against the subclass IPGlob, is rejected)
+SETS_LEAF_CLASSES = ("IPSet", "IPNetwork", "IPRange", "_int_type")
+
+
+def parse_type(s):
+    if s == "list rng":          # a list of (version, first, last) tuples
+        return ("list", Cell(("tup", ("int", "int", "int"))))
+    return _parse_type0(s)
+
+
+def is_value(t):
+    return t in SETS_VALUE_TYPES or _is_value0(t)
+
+
+def _wrap(cls, name):
+    def deco(new):
+        old = getattr(cls, name)
+
+        def wrapped(self, *a, **kw):
+            return new(old, self, *a, **kw)
+        wrapped.__name__ = name
+        setattr(cls, name, wrapped)
+        return new
+    return deco
+
+
+@_wrap(Fn, "rhs")
+def _srca_rhs(old, self, node, env):
+    if _sets_on(self):
+        r = sets_rhs(self, node, env)
+        if r is not None:
+            self.size += 1
+            return r
+    return old(self, node, env)
+
+
+@_wrap(Fn, "bool_")
+def _srca_bool(old, self, node, env):
+    if not _sets_on(self):
+        return old(self, node, env)
+    ty, t = self.ex(node, env)
+    if ty == "bool":
+        return t
+    if ty == "int":
+        return "(negb (%s =? 0))" % t                   # truth value of an int
+    if is_list(ty) or ty == "dict":
+        return "(py_nonempty %s)" % t
+    if ty == "ipset":                                   # truth value of an IPSet: its __nonzero__ / __bool__
+        r = self.generated(node, "IPSet", "__nonzero__", t, [])
+        if r[0] == "out":
+            bad(node, "IPSet.__nonzero__ can raise")
+        return r[1]
+    bad(node, "bool expression expected, got %s" % show(ty))
+
+
+@_wrap(Fn, "block")
+def _srca_block(old, self, stmts, env, k, after):
+    if stmts and _sets_on(self):
+        r = sets_stmt(self, stmts, env, k, after)
+        if r is not None:
+            return r
+    return old(self, stmts, env, k, after)
+
+
+@_wrap(Fn, "loop")
+def _srca_loop(old, self, s, rest, env, k, after):
+    if _sets_on(self):
+        # a loop after an `if` with exits is reached once per branch: number the auxiliary names h<N> from a base that depends on
+        # the loop only, so that both translations are the same text (names are lexically scoped; the bases are far apart)
+        self.nfresh = 1000 * self.loopno[id(s)]
+        if (isinstance(s, ast.For) and isinstance(s.target, ast.Name) and isinstance(s.iter, ast.Name) and is_list(env.get(s.iter.id, ("",))[0])
+                and env[s.iter.id][0][1].find().t in SETS_CLASS_OF):
+            # `if isinstance(<loop variable>, C): ..` at the top of the body, for a list whose element type is declared: decided here
+            # (the dropped branch may rebind the loop variable); the node is our own copy of the function
+            elem, body = env[s.iter.id][0][1].find().t, []
+            for st in s.body:
+                t = st.test if isinstance(st, ast.If) else None
+                if (isinstance(t, ast.Call) and dotted(t.func) == "isinstance" and len(t.args) == 2 and not t.keywords
+                        and isinstance(t.args[0], ast.Name) and t.args[0].id == s.target.id and not body
+                        and all(isinstance(c, ast.Name) and c.id not in env for c in (t.args[1].elts if isinstance(t.args[1], ast.Tuple) else [t.args[1]]))):
+                    cs = [c.id for c in (t.args[1].elts if isinstance(t.args[1], ast.Tuple) else [t.args[1]])]
+                    if any(not (c in self.mod.classes or (self.mod.imports.get(c) or "").startswith("netaddr.")) or c not in SETS_LEAF_CLASSES for c in cs):
+                        bad(st, "isinstance against something other than IPSet / IPNetwork / IPRange / _int_type")
+                    body += st.body if SETS_CLASS_OF[elem] in cs else st.orelse
+                else:
+                    body.append(st)
+            s.body = body or [ast.copy_location(ast.Pass(), s)]
+    return old(self, s, rest, env, k, after)
+
+
+@_wrap(Fn, "owned")
+def _srca_owned(old, self, x):
+    return (_sets_on(self) and sets_owned(self, x)) or old(self, x)
+
+
+@_wrap(Fn, "method_mutates")
+def _srca_method_mutates(old, self, name, seen=()):
+    if old(self, name, seen):
+        return True
+    r = self.mod.lookup(self.recv, name) if self.recv == "IPSet" else None
+    if r is None:
+        return False
+    paths = {"self." + a for a, _ in STATEVARS[self.recv]}      # self._cidrs[k] = True / del self._cidrs[k]
+    return any(isinstance(n, ast.Subscript) and not isinstance(n.ctx, ast.Load) and dotted(n.value) in paths for n in ast.walk(r[1]))
+
+
+@_wrap(Fn, "state_as_locals")
+def _srca_state_as_locals(old, self, f):
+    return old(self, sets_prepare(f, self, self.mod) if self.recv == "IPSet" else f)
+
+
+@_wrap(Module, "function")
+def _srca_function(old, self, name):
+    f = old(self, name)
+    return sets_prepare(f, None, self) if self.fn == SETSFILE else f
+
+
+@_wrap(Translator, "__init__")
+def _srca_tr_init(old, self, *a, **kw):
+    old(self, *a, **kw)
+    if self.out:
+        BY_OUT[self.out] = self
+
+
+@_wrap(Translator, "get")
+def _srca_tr_get(old, self, recv, name, node=None):
+    if self.out in SETS_FILES and any(w[:2] == (recv, name) for w in SETS_IP_UNIT[4]) and BY_OUT.get(SETS_IP_UNIT[1]) is not None:
+        return BY_OUT[SETS_IP_UNIT[1]].get(recv, name, node)
+    if self.out in SETS_FILES and not any(w[:2] == (recv, name) for w in self.specs):
+        for out in SETS_FILES:                          # a definition of an earlier sets unit
+            t = BY_OUT.get(out)
+            if t is not None and t is not self and any(w[:2] == (recv, name) for w in t.specs):
+                return t.get(recv, name, node)
+    return old(self, recv, name, node)
 
 
 def constants(strategy=STRATEGY):
